@@ -152,14 +152,18 @@ func (d *SimDisk) Write(p []byte) (int, error) {
 
 // Delivery describes how bytes are handed to the reader.
 type Delivery struct {
-	Mode    string `json:"mode"`            // "whole" (bytes.Reader-like), "one", "pieces", "chunk"
-	Seed    uint64 `json:"seed,omitempty"`  // for "pieces"
-	MaxPc   int    `json:"max,omitempty"`   // max piece for "pieces"
-	EOFWith bool   `json:"eof_with"`        // final piece delivered together with io.EOF
-	Bufio   int    `json:"bufio,omitempty"` // wrap in bufio.NewReaderSize (0 = none)
+	Mode    string `json:"mode"`              // "whole" (bytes.Reader-like), "one", "pieces", "chunk"
+	Seed    uint64 `json:"seed,omitempty"`    // for "pieces"
+	MaxPc   int    `json:"max,omitempty"`     // max piece for "pieces"
+	EOFWith bool   `json:"eof_with"`          // final piece delivered together with io.EOF
+	Bufio   int    `json:"bufio,omitempty"`   // wrap in bufio.NewReaderSize (0 = none)
+	Stutter int    `json:"stutter,omitempty"` // >0: every Stutter-th Read call returns (0, nil) — "nothing happened", which io.Reader allows — before the source goes on (also once right before its first end-of-file; never after it has reported end-of-file)
 }
 
 func (d Delivery) String() string {
+	if d.Stutter > 0 {
+		return fmt.Sprintf("%s/max%d/eofwith=%v/bufio%d/stutter%d", d.Mode, d.MaxPc, d.EOFWith, d.Bufio, d.Stutter)
+	}
 	return fmt.Sprintf("%s/max%d/eofwith=%v/bufio%d", d.Mode, d.MaxPc, d.EOFWith, d.Bufio)
 }
 
@@ -172,19 +176,20 @@ type SrcFault struct {
 }
 
 type SimSource struct {
-	img      []byte
-	pos      int
-	d        Delivery
-	rng      *core.RNG
-	Fault    *SrcFault
-	Fired    int
-	FiredK   int // bytes that were delivered together with the injected error
-	failed   bool
-	Consumed int // bytes handed out so far
-	Calls    int
-	Log      *core.Log
-	Yield    func(what string)
-	EOFs     int
+	img       []byte
+	pos       int
+	d         Delivery
+	rng       *core.RNG
+	Fault     *SrcFault
+	Fired     int
+	FiredK    int // bytes that were delivered together with the injected error
+	failed    bool
+	Consumed  int // bytes handed out so far
+	Calls     int
+	Log       *core.Log
+	Yield     func(what string)
+	EOFs      int
+	stuttered bool // the previous call was a (0, nil)
 	// OnAsk is called at the start of every Read with the number of bytes handed out so far
 	OnAsk func(consumedBefore int)
 }
@@ -212,6 +217,12 @@ func (s *SimSource) Read(p []byte) (int, error) {
 	if s.OnAsk != nil {
 		s.OnAsk(s.Consumed)
 	}
+	if s.d.Stutter > 0 && !s.stuttered && s.EOFs == 0 && (s.Calls%s.d.Stutter == 0 || s.pos == len(s.img)) {
+		s.stuttered = true
+		s.Log.Add("src.Read -> (0, nil)")
+		return 0, nil
+	}
+	s.stuttered = false
 	if f := s.Fault; f != nil {
 		if s.failed && f.Mode == "sticky" {
 			s.Log.Add("src.Read -> (0, injected sticky)")
@@ -321,6 +332,9 @@ func GenDelivery(r *core.RNG) Delivery {
 	d.EOFWith = r.Bool()
 	if r.Chance(1, 3) {
 		d.Bufio = r.Pick(16, 64, 4095, 4096, 65536)
+	}
+	if r.Chance(1, 6) {
+		d.Stutter = r.Pick(1, 2, 3, 7)
 	}
 	return d
 }
